@@ -31,7 +31,17 @@ pub fn ob_split(name: &str, whole: F, p1: F, p2: F) {
     ob_via(name, "split", prem, (p1 + p2).approx(whole, 2.0, whole));
 }
 pub fn out(name: &str, v: F) {
-    <F as Scalar>::record(name, v)
+    let diverted = LEAVES.with(|l| {
+        if let Some(vv) = l.borrow_mut().as_mut() {
+            vv.push((name.to_string(), v));
+            true
+        } else {
+            false
+        }
+    });
+    if !diverted {
+        <F as Scalar>::record(name, v)
+    }
 }
 pub fn input(name: &str, dom: Dom) -> F {
     <F as Scalar>::input(name, dom)
@@ -489,4 +499,35 @@ pub fn evaluate(e: &Eval) -> std::result::Result<EnergyPerformance, String> {
     let r = energy_performance(&e.comps, &e.fp, e.kexp, e.area, e.lm).map_err(|x| err_kind(&x).to_string());
     spec(true);
     r
+}
+
+/// Evaluate with explicit parameters (several evaluations of the same inputs in one path context).
+pub fn evaluate_with(e: &Eval, fp: &Factors, kexp: F, area: F, lm: bool) -> std::result::Result<EnergyPerformance, String> {
+    spec(false);
+    let r = energy_performance(&e.comps, fp, kexp, area, lm).map_err(|x| err_kind(&x).to_string());
+    spec(true);
+    r
+}
+
+pub fn f() -> B {
+    <B as Logic>::f()
+}
+
+/// look up a map entry by the Debug name of its key (works for the std map and for the model)
+#[macro_export]
+macro_rules! by_name {
+    ($map:expr, $name:expr) => {
+        $map.iter().find(|(k, _)| format!("{:?}", k) == $name).map(|(_, v)| v)
+    };
+}
+
+/// All numeric leaves of an EnergyPerformance, as (name, value) pairs (through the recorder).
+pub fn leaves(ep: &EnergyPerformance) -> Vec<(String, F)> {
+    LEAVES.with(|l| l.borrow_mut().replace(vec![]));
+    rec_ep("", ep);
+    LEAVES.with(|l| l.borrow_mut().take().unwrap())
+}
+
+thread_local! {
+    pub static LEAVES: std::cell::RefCell<Option<Vec<(String, F)>>> = std::cell::RefCell::new(None);
 }
